@@ -453,6 +453,23 @@ pdgstrf_WorkInit(int_t n, int_t panel_size, int_t **iworkptr, double **dworkptr)
     dsize = (n * panel_size +
 	     NUM_TEMPV(n,panel_size,maxsuper,rowblk)) * sizeof(double);
     
+    /* A worker counts from before its first request: the tail of the user's
+       workspace must not be handed back by a worker that finishes while this
+       one is still in between its two requests. */
+    if ( whichspace == USER ) {
+#if ( MACH==PTHREAD ) /* Use pthread ... */
+        pthread_mutex_lock( &stack.lock );
+#elif ( MACH==OPENMP ) /* Use openMP ... */
+#pragma omp critical ( STACK_LOCK )
+#endif
+        {
+	    ++nworkers;
+        }
+#if ( MACH==PTHREAD ) /* Use pthread ... */
+        pthread_mutex_unlock( &stack.lock );
+#endif
+    }
+
     if ( whichspace == SYSTEM ) 
 	*iworkptr = (int_t *) intCalloc(isize/sizeof(int_t));
     else
@@ -489,20 +506,6 @@ pdgstrf_WorkInit(int_t n, int_t panel_size, int_t **iworkptr, double **dworkptr)
 	return (isize + dsize + n);
     }
 	
-    if ( whichspace == USER ) {
-#if ( MACH==PTHREAD ) /* Use pthread ... */
-        pthread_mutex_lock( &stack.lock );
-#elif ( MACH==OPENMP ) /* Use openMP ... */
-#pragma omp critical ( STACK_LOCK )
-#endif
-        {
-	    ++nworkers;
-        }
-#if ( MACH==PTHREAD ) /* Use pthread ... */
-        pthread_mutex_unlock( &stack.lock );
-#endif
-    }
-
 #ifdef SLU_MT_VERIF
     SLUV_EVENT(SLUV_E_WORK_ALLOC, *iworkptr, isize, *dworkptr, dsize, whichspace == USER, 0);
 #endif
